@@ -24,6 +24,7 @@ From CG Require Import Model.Lexer.
 From CG Require Import Model.Parser.
 From CG Require Import Spec.Printer.
 From CG Require Import Model.Ambiguity.
+From CG Require Model.DotOfRegex.
 (* add new Require lines above this line *)
 Require Import ExtrOcamlBasic ExtrOcamlString.
 Extraction Language OCaml.
@@ -55,6 +56,8 @@ Separate Extraction
   Dot.known_rx_all
   Dot.rx_wf_b
   Dot.rx_total_b
+  DotOfRegex.conv_regex
+  DotOfRegex.conv_pool
   DotSpec.sub_ids
   DotRead.read
   DotRead.render_label
